@@ -33,7 +33,14 @@ def shapes(a, b, s, t, f):
     l = [a, b]
     return [a, s, t, f, None, True, (), [], {}, set(), frozenset(), (a,), (a, b), (a, b, s), (a, b, s, t), [a], l, [l, l], {s: l}, d, [d, d],
             {a: {b: s}}, {a, b}, frozenset({a}), [(a, [b, {s: (t,)}])], ((), [], {}), [[[]]], {s: None, "z": [True, False]},
-            [a, s, a, s], (l, l), {"k": d, "j": d}, [{a}, {a}], [frozenset({a, b})], bytearray(t)]
+            [a, s, a, s], (l, l), {"k": d, "j": d}, [{a}, {a}], [frozenset({a, b})], bytearray(t),
+            [BIG_LIST, BIG_LIST], {"x": BIG_LIST, "y": [BIG_LIST, a]}, [BIG_DICT, BIG_DICT], [BIG_SET, BIG_SET], (BIG_LIST, s, BIG_DICT)]
+
+
+# containers beyond the pickler's batch size (1000): later batches arrive through further APPENDS / SETITEMS / ADDITEMS
+BIG_LIST = list(range(1001))
+BIG_DICT = {i: i for i in range(1001)}
+BIG_SET = set(range(1001))
 
 
 NSHAPES = len(shapes(0, 1, "s", b"t", 1.5))
@@ -50,6 +57,7 @@ def classify(obj, proto):
         return False
     if has(obj, frozenset):
         return "frozenset"
+
     return None
 
 
@@ -62,7 +70,7 @@ def _allowed_import(name, globals=None, locals=None, fromlist=(), level=0):
 def make_plain(proto):
     def lem(sh: int, ai: int, si: int) -> bool:
         """
-        pre: 0 <= sh < 40 and 0 <= ai < 13 and 0 <= si < 9
+        pre: 0 <= sh < 48 and 0 <= ai < 13 and 0 <= si < 9
         post: _
         """
         if sh >= NSHAPES:
